@@ -338,6 +338,8 @@ def run_one(mod, ctx: Ctx, name: str, idx: int) -> None:
         if old is not None:
             signal.setitimer(signal.ITIMER_REAL, 0)
             signal.signal(signal.SIGALRM, old)
+        from . import monitors as _m     # a case interrupted mid-way must not leave
+        _m.ACTIVE[0] = None              # its contracts recording into the next one
     ctx.cases_run[name] = ctx.cases_run.get(name, 0) + 1
 
 
